@@ -38,6 +38,14 @@ func be(width int, v uint64) []byte {
 	return out
 }
 
+func leUint(b []byte) uint64 {
+	var v uint64
+	for i := range b {
+		v |= uint64(b[i]) << (8 * uint(i))
+	}
+	return v
+}
+
 func distinctValue(width int, salt int) uint64 {
 	var v uint64
 	for i := 0; i < width; i++ {
@@ -99,9 +107,12 @@ func byteOrderOne(s smbgen.Struct, rels []smbgen.Relation, bi int) {
 				got := wire[sl.Lo:sl.Hi]
 				cs := map[string]any{"struct": s.Name, "field": lf.Path, "value": fmt.Sprintf("%#x", val), "slot": []int{sl.Lo, sl.Hi}, "wire": mon.FullHex(wire)}
 				if !bytes.Equal(got, le(lf.Width, val)) {
-					class := "byteorder"
+					// the same bytes in the other order is a byte-order matter (one of them is a pinned
+					// finding); anything else is a wrong value and has its own key
+					class := "value"
 					what := fmt.Sprintf("field %s=%#x is encoded as % x, MS-CIFS little-endian is % x", lf.Path, val, got, le(lf.Width, val))
 					if bytes.Equal(got, be(lf.Width, val)) {
+						class = "byteorder"
 						what += " (big-endian)"
 					}
 					r.Violation(leafKey(s, lf, class), what, cs)
@@ -119,7 +130,11 @@ func byteOrderOne(s smbgen.Struct, rels []smbgen.Relation, bi int) {
 					if !p && uerr == nil {
 						dv := smbgen.GetBits(lf.Leaf(reflect.ValueOf(d).Elem()))
 						if dv != val2 {
-							r.Violation(leafKey(s, lf, "decode-byteorder"), fmt.Sprintf("little-endian bytes % x in the slot of %s decode to %#x, want %#x", le(lf.Width, val2), lf.Path, dv, val2),
+							dclass := "decode-value"
+							if bytes.Equal(le(lf.Width, dv), be(lf.Width, val2)) {
+								dclass = "decode-byteorder"
+							}
+							r.Violation(leafKey(s, lf, dclass), fmt.Sprintf("little-endian bytes % x in the slot of %s decode to %#x, want %#x", le(lf.Width, val2), lf.Path, dv, val2),
 								map[string]any{"struct": s.Name, "field": lf.Path, "wire": mon.FullHex(in)})
 						}
 						r.Nontrivial(fmt.Sprintf("dec|%s|%s|%d", s.Name, lf.Path, k))
@@ -493,8 +508,8 @@ func subsetCodec(structs []smbgen.Struct) {
 							for _, pr := range pranges {
 								if i >= pr.lo && i < pr.hi {
 									key = "subset:" + sp.name + ":params:" + pr.path
-									if f, ok := s.Type.FieldByName(strings.Split(pr.path, ".")[0]); ok && f.Type.Name() == "SMB_FILE_ATTRIBUTES" {
-										key = "types.SMB_FILE_ATTRIBUTES:byteorder"
+									if f, ok := s.Type.FieldByName(strings.Split(pr.path, ".")[0]); ok && f.Type.Name() == "SMB_FILE_ATTRIBUTES" && bytes.Equal(lp[pr.lo:pr.hi], be(pr.hi-pr.lo, leUint(params[pr.lo:pr.hi]))) {
+										key = "types.SMB_FILE_ATTRIBUTES:byteorder" // the pinned finding: same bytes, other order
 									}
 								}
 							}
@@ -521,8 +536,8 @@ func subsetCodec(structs []smbgen.Struct) {
 					for _, f := range sp.params {
 						if got := smbgen.GetBits(fieldByPath(dvv, f.path)); got != vals[f.path] {
 							key := "subset:" + sp.name + ":decode:" + f.path
-							if tf, ok := s.Type.FieldByName(strings.Split(f.path, ".")[0]); ok && tf.Type.Name() == "SMB_FILE_ATTRIBUTES" {
-								key = "types.SMB_FILE_ATTRIBUTES:decode-byteorder"
+							if tf, ok := s.Type.FieldByName(strings.Split(f.path, ".")[0]); ok && tf.Type.Name() == "SMB_FILE_ATTRIBUTES" && got == uint64(uint16(vals[f.path])>>8|uint16(vals[f.path])<<8) {
+								key = "types.SMB_FILE_ATTRIBUTES:decode-byteorder" // the pinned finding: same bytes, other order
 							}
 							r.Violation(key, fmt.Sprintf("reference bytes decode %s as %#x, want %#x", f.path, got, vals[f.path]), cs)
 						}
